@@ -151,13 +151,18 @@ MutSetBits(B, i, len, w) ==
                          ELSE B[q]]
 StrictlyIncreasing(ps) == \A t \in 1..(Len(ps) - 1) : ps[t] < ps[t + 1]
 MutExtendPositionsOk(ps) == StrictlyIncreasing(ps) /\ \A t \in 1..Len(ps) : ps[t] >= 0
+\* set semantics: every listed position is set, the vector is zero-extended up to the largest
+\* one; defined for any list of non-negative positions (duplicates, any order).  Position-list
+\* constructors may refuse (panic on) a list that is not strictly increasing (C04); where
+\* they accept it, this is the value.
+PositionsDefined(ps) == \A t \in 1..Len(ps) : ps[t] >= 0
+MaxPos(ps) == SX!FoldLeft(LAMBDA acc, x : MaxI(acc, x), -1, ps)
 MutExtendPositions(B, ps) ==
     IF Len(ps) = 0 THEN B
-    ELSE LET n2 == MaxI(Len(B), ps[Len(ps)] + 1)
+    ELSE LET n2 == MaxI(Len(B), MaxPos(ps) + 1)
          IN  [q \in 1..n2 |-> IF \E t \in 1..Len(ps) : ps[t] = q - 1 THEN 1
                               ELSE IF q <= Len(B) THEN B[q] ELSE 0]
 
-\* bit vector denoted by a strictly increasing list of positions
 BitsOfPositions(ps) == MutExtendPositions(<< >>, ps)
 
 \* bit vector obtained by collecting the positions of the ones of B
